@@ -93,6 +93,22 @@ impl<'a> UserModel<'a> {
     pub fn on_apply_named_style(&mut self, name: &str) -> Result<(), String> {
         let mut diff_list = Vec::new();
 
+        // Resolve the selection range.
+        let sheet = if let Some(view) = self.model.workbook.views.get(&self.model.view_id) {
+            view.sheet
+        } else {
+            return Ok(());
+        };
+        let range = if let Ok(worksheet) = self.model.workbook.worksheet(sheet) {
+            if let Some(view) = worksheet.views.get(&self.model.view_id) {
+                view.range
+            } else {
+                return Ok(());
+            }
+        } else {
+            return Ok(());
+        };
+
         // Ensure the style exists in the model, adding it from builtins if needed.
         // Only fall back to the builtins when the name is genuinely absent;
         // errors on an existing style (e.g. an invalid xf id in a malformed
@@ -110,22 +126,6 @@ impl<'a> UserModel<'a> {
                 includes,
             });
         }
-
-        // Resolve the selection range.
-        let sheet = if let Some(view) = self.model.workbook.views.get(&self.model.view_id) {
-            view.sheet
-        } else {
-            return Ok(());
-        };
-        let range = if let Ok(worksheet) = self.model.workbook.worksheet(sheet) {
-            if let Some(view) = worksheet.views.get(&self.model.view_id) {
-                view.range
-            } else {
-                return Ok(());
-            }
-        } else {
-            return Ok(());
-        };
 
         let [row_start, column_start, row_end, column_end] = range;
         for row in row_start..=row_end {
